@@ -231,11 +231,7 @@ Inductive why :=
 | WScan            (* a store lookup of the upward scan failed *)
 | WZero            (* tail height 0: Store.GetByHeight(0) *)
 | WFetch           (* the network has no header for the tail height / hash *)
-| WDelete          (* Store.DeleteRange refused to move the tail up *)
-| WChunk.          (* syncStore.Append refused a chunk while moving the tail down *)
-
-(** header.MaxRangeRequestSize *)
-Definition max_range : N := 64.
+| WDelete.         (* Store.DeleteRange refused to move the tail up *)
 
 (** moveTail(from = old tail, to = x) once the header x is in the store *)
 Definition move_tail (st : store) (old : option N) (x : N) : outcome * store * why :=
@@ -248,12 +244,10 @@ Definition move_tail (st : store) (old : option N) (x : N) : outcome * store * w
       | None => (OErr, st, WDelete)
       end
     else if x <? t then
-      (* doSync re-fetches (x .. t] in chunks of MaxRangeRequestSize through
-         syncStore.Append, which refuses a chunk that starts at the head itself:
-         the last chunk is [t] alone when the store is the single header t *)
-      if (s_head st =? t) && ((t - x - 1) mod max_range =? 0)
-      then (OErr, st_sync_down st x, WChunk)
-      else (OOk, st_sync_down st x, WDone)
+      (* doSync re-fetches (x .. t] in chunks through syncStore.Append; the last
+         header t is the store's tail (and, for a single-header store, its head):
+         syncStore.Append accepts the current head again *)
+      (OOk, st_sync_down st x, WDone)
     else (OOk, st, WDone)
   end.
 
